@@ -30,6 +30,8 @@ CHECKS = {
          "All DAG shapes with n <= 3 (quick) / 4 (thorough) commits, timestamps as solver variables (equal, reversed, skewed): ancestor <=> reachable; walk visits each ancestor once; merge base is a common ancestor, is the input that is an ancestor of the others, found iff one exists. GetCommit replaced by a table lookup under gosym (real GetCommit in the native replay).", "4 C11"),
  "C12": ("model_checking", "bounded exhaustive exploration of repository shapes through symbolic execution of the real prune.Prune",
          "Repositories of <= 2 (quick) / 3 (thorough) commits over 3 real tables, refs of every kind present/deleted, shallow commits with the absent table sum placed before/after/between the stored keys; reachable commits/tables/indices/blocks survive intact, unreachable commits and their exclusive tables/blocks are gone, prune twice = once, no crash. Mostly exhaustive shape enumeration (stated in evidence).", "4 C12"),
+ "C13": ("fault_enumeration", "symbolic execution of commit (ingest+SaveCommit+CommitHead), receive (+ref update) and prune over in-memory stores with the failing write index and fault kind as SMT variables; invariants checked after 'reopen', then re-run",
+         "Every prefix of the store-write sequence of commit (1-2 workers, 1-2 blocks), packfile receive (one or many packfiles) and prune, as process death (no later write takes effect) or a single write error: refs resolve to readable commits, commits have parents, a branch never points at a commit lacking its table, every present table has blocks, block indices and table index; re-running succeeds and ends with the same refs/tables/history as an uninterrupted run. Stores with atomic calls stand in for badger/SQLite; the cobra layer and real process kills are outside.", "4 C13"),
  "C14": ("fault_enumeration", "symbolic execution of transaction.Commit/Discard with the failing store-write index and fault kind as SMT variables and the branch visiting order as a choice point",
          "1-2 (quick) / 1-3 (thorough) staged branches (new/existing), fault at every store write (crash or error), then re-run: all-or-nothing, no duplicate commit, one log entry with true old/new per branch; commit/discard after commit are refused and change nothing. In-memory stores with atomic calls stand in for SQLite/badger.", "4 C14"),
  "C17": ("model_checking", "bounded symbolic execution of each decoder entry point over a fully symbolic N-byte buffer; panics, step budget and attacker-controlled allocation sizes decided by SMT",
@@ -44,7 +46,6 @@ CHECKS = {
 
 NOT_APPLICABLE = {
  "C09": "end-to-end fetch/push needs HTTP+gzip+JSON and a server that is not in this repository; the mechanisms are decided under C07, C08, C10, C11 (DESIGN section 5)",
- "C13": "not yet built in this revision (planned: symbolic crash index over ingest / receive / prune per DESIGN section 4)",
  "C15": "behaviour of SQL statements executed inside SQLite through cgo and of os calls in the file store cannot be executed by the symbolic interpreter (DESIGN section 5); the literal-prefix sub-claim is planned",
  "C16": "goroutine interleavings below the cooperative scheduler are not encoded yet (DESIGN section 4, C16); termination/equivalence under the cooperative schedules is exercised by C01/C04/C19",
 }
